@@ -13,6 +13,32 @@ import (
 
 func init() { Monitors["C29"] = runC29 }
 
+// splitWildNames returns every way of writing s as the concatenation of a
+// subsequence of names (in order); each solution is the set of indices used.
+func splitWildNames(s string, names []string) []map[int]bool {
+	var out []map[int]bool
+	var rec func(rest string, from int, used []int)
+	rec = func(rest string, from int, used []int) {
+		if rest == "" {
+			m := map[int]bool{}
+			for _, u := range used {
+				m[u] = true
+			}
+			if len(m) > 0 {
+				out = append(out, m)
+			}
+			return
+		}
+		for i := from; i < len(names); i++ {
+			if names[i] != "" && strings.HasPrefix(rest, names[i]) {
+				rec(rest[len(names[i]):], i+1, append(append([]int(nil), used...), i))
+			}
+		}
+	}
+	rec(s, 0, nil)
+	return out
+}
+
 var pathStructT = reflect.TypeOf((*ygot.PathStruct)(nil)).Elem()
 
 // keyValuePool collects, per Go type, example key values from generated trees
@@ -160,14 +186,32 @@ func runC29(r *lib.Run) {
 					// supplied keys: parameters are named after the key leaves (CamelCase), in key order minus the wildcarded ones
 					kfs := nextSI.KeyFields()
 					ai := 0
+					// "<List>Any<K1><K2>": the named keys (a subsequence of the keys, in key
+					// order) are the wildcarded ones; key names may be prefixes of each other
+					var wildSet map[int]bool
+					if wild != "" {
+						var gn []string
+						for _, kf := range kfs {
+							if kf == nil {
+								gn = append(gn, "\x00")
+							} else {
+								gn = append(gn, kf.GoName)
+							}
+						}
+						sols := splitWildNames(wild, gn)
+						if len(sols) != 1 || len(gn)-len(sols[0]) != nin {
+							r.Hit("skipped:ambiguous-wildcard-accessor-name")
+							continue
+						}
+						wildSet = sols[0]
+					}
 					for ki, kn := range nextSI.KeyNames {
 						if kfs[ki] == nil {
 							continue
 						}
 						isWild := wild != "" || (strings.Contains(m.Name, "Any") && nin == 0)
 						if wild != "" {
-							// "<List>Any<K1><K2>": the named keys are the wildcarded ones
-							isWild = strings.Contains(wild, kfs[ki].GoName)
+							isWild = wildSet[ki]
 						}
 						if nin == 0 {
 							isWild = true
